@@ -63,6 +63,8 @@ def _levels(clause, replay, ctx):
     supplied position, comparable-or-unrelated in one direction elsewhere) AND
     what the code did is exactly what the Impl layer (ResolveImpl.tla, which
     models the integer levels) predicts for that input."""
+    if clause.startswith("C10:") and not clause.startswith("C10:value_outcome."):
+        return False
     return ctx.get("kf") == "1"
 
 
@@ -96,3 +98,11 @@ def _crossfamily(clause, replay, ctx):
         return False
     fa, fb = _FAMILY.get(a["k"]), _FAMILY.get(b["k"])
     return fa is not None and fb is not None and fa != fb
+
+
+@matcher("pullrank")
+def _pullrank(clause, replay, ctx):
+    """Signature computed by the TLA+ judge (Dependent.tla KF_pull_rank): a
+    dependent method that is a type-level candidate but not applicable to the
+    values.  Only outcome clauses (never runs_iff_holds / bound_guard)."""
+    return ctx.get("kf") == "1" and clause.startswith("C10:value_outcome.")
